@@ -207,7 +207,7 @@ Fixpoint starts_from (acc : Q) (durs : list Q) : list Q :=
 Fixpoint insert_by_start {A} (x : Q * A) (l : list (Q * A)) : list (Q * A) :=
   match l with
   | [] => [x]
-  | y :: r => if Qlt_b (fst x) (fst y) then x :: l else y :: insert_by_start x r
+  | y :: r => if Qle_bool (fst x) (fst y) then x :: l else y :: insert_by_start x r
   end.
 Definition order_by_start {A} (l : list (Q * A)) : list (Q * A) :=
   fold_right insert_by_start [] l.
